@@ -170,3 +170,35 @@ func (k *kit) ControlState() string {
 
 // VNovel: see kit.novel.
 func (k *kit) VNovel() string { return k.novel() }
+
+// VHeld is a request kept in flight at its backend (sequential harnesses).
+type VHeld = held
+
+// StartHeld starts a request that parks at its backend's transport gate; At() tells where.
+func (k *kit) StartHeld(client string) *held { return k.startHeld(client) }
+
+// ReleaseHeld lets the held request proceed and waits until it has finished.
+func (k *kit) ReleaseHeld(h *held) {
+	if h.at != nil {
+		k.release(h.at)
+	}
+}
+
+// At is the host of the backend the request is parked at ("" if it never reached one).
+func (h *held) At() string {
+	if h.at == nil {
+		return ""
+	}
+	return h.at.host
+}
+func (h *held) Finished() bool    { return h.done }
+func (h *held) Result() reqResult { return h.res }
+
+// RequestUpgradeDeclined sends a request that asks for a protocol upgrade; the scripted backend
+// answers with an ordinary 200 (it declines): an ordinary exchange as far as accounting goes.
+func (k *kit) RequestUpgradeDeclined(client string) reqResult {
+	return k.requestWith(client, nil, func(r *http.Request) {
+		r.Header.Set("Connection", "Upgrade")
+		r.Header.Set("Upgrade", "h2c")
+	})
+}
